@@ -170,6 +170,7 @@ where
                     if base >= n {
                         break;
                     }
+                    crate::watch::note_progress(st.distinct.len() as u64, st.nontrivial.len() as u64);
                     for run in base..(base + 64).min(n) {
                         crate::watch::enter(run);
                         let r = match catch_unwind(AssertUnwindSafe(|| body(run, &mut st))) {
